@@ -34,6 +34,7 @@ Emit == IF IsMvn THEN PrintT(<<"CASE", ToJson(MvnOut)>>) ELSE
           insupport |-> [j \in 1..Len(Row.pts) |-> InSupport(K, Pp, Norm(Row.pts[j].xn, Row.pts[j].xd))],
           support |-> SupportBounds(K, Pp), discrete |-> Discrete(K),
           boundary |-> [j \in 1..Len(Row.pts) |-> OnBoundary(K, Pp, Norm(Row.pts[j].xn, Row.pts[j].xd))],
+          closed_end |-> [j \in 1..Len(Row.pts) |-> ClosedEnd(K, Pp, Norm(Row.pts[j].xn, Row.pts[j].xd))],
           pmf |-> IF HasExactPmf(K, Pp) THEN [j \in 1..Len(Row.pts) |->
                       LET x == Norm(Row.pts[j].xn, Row.pts[j].xd) IN
                       IF InSupport(K, Pp, x) THEN RJ(Pmf(K, Pp, x[1])) ELSE RJ(RZ)] ELSE <<>>])>>)
